@@ -8,6 +8,7 @@ import (
 	"sort"
 	"strconv"
 	"strings"
+	"sync"
 	"time"
 
 	"github.com/btcsuite/btcd/btcutil"
@@ -15,6 +16,7 @@ import (
 	"github.com/btcsuite/btcd/wire"
 	"github.com/btcsuite/btcwallet/chain"
 	"github.com/btcsuite/btcwallet/waddrmgr"
+	"github.com/btcsuite/btcwallet/wallet"
 	"github.com/btcsuite/btcwallet/walletdb"
 	"github.com/btcsuite/btcwallet/wtxmgr"
 
@@ -32,6 +34,11 @@ import (
 //   dupc | duptx h=<n> | mtx tx=<id>                   repeated BlockConnected(tip) / RelevantTx / unmined tx
 //   raw k=<c|d> id=<k>                                 malformed stream: a notification the backend state does not justify
 //   stop | start recw=<n> | startx id=<k> mode=<m> | state | hashes from=<a> to=<b>
+//
+// Every reply that shows the running wallet ("run ...") ends with ` ntf=<n1>|<n2>|...`: the TransactionNotifications the
+// wallet's NotificationServer delivered to a client (registered before SynchronizeRPC) since the previous such reply,
+// each as `A=<height>:<block id>[<tx>+<tx>]/...,D=<block id>/...,U=<tx>` (attached blocks in order, detached block
+// hashes in order, newly added unmined transactions).
 
 var namespaces = struct{ addr, tx []byte }{[]byte("waddrmgr"), []byte("wtxmgr")}
 
@@ -62,9 +69,232 @@ type syncRunner struct {
 	brokenReported bool
 	recoveryTaint  bool // a start-up with a recovery window left stale state behind: later violations are its consequences
 	broken    bool           // RangeTransactions failed: the transaction store is inconsistent (sticky)
+
+	// C02 (wallet level): every wallet transaction that was delivered to the wallet (its block was on the best chain while
+	// the wallet was running and synced, it was found by a start-up rescan/recovery, or it arrived unconfirmed)
+	seen map[int]txSpec
+
+	// NotificationServer client of the running wallet and the notification oracle's view
+	col      *ntfnCollector
+	cchain   []chainhash.Hash // the chain a client following the attached blocks has (index = height)
+	sentDisc []chainhash.Hash // hashes of the BlockDisconnected notifications that make disconnectBlock notify, in order
+	gotDet   []chainhash.Hash // DetachedBlocks delivered so far, in order
 }
 
+// ntfnCollector receives from the (unbuffered) TransactionNotifications channel of one wallet object.
+type ntfnCollector struct {
+	client wallet.TransactionNotificationsClient
+	mu     sync.Mutex
+	got    []*wallet.TransactionNotifications
+	ping   chan chan struct{}
+	quit   chan struct{}
+}
+
+func newCollector(w *wallet.Wallet) *ntfnCollector {
+	c := &ntfnCollector{client: w.NtfnServer.TransactionNotifications(), ping: make(chan chan struct{}), quit: make(chan struct{})}
+	go func() {
+		for {
+			select {
+			case n, ok := <-c.client.C:
+				if !ok {
+					return
+				}
+				c.mu.Lock()
+				c.got = append(c.got, n)
+				c.mu.Unlock()
+			case ack := <-c.ping:
+				ack <- struct{}{}
+			case <-c.quit:
+				return
+			}
+		}
+	}()
+	return c
+}
+
+// drain returns what was delivered so far.  The wallet's handler has finished the notifications the engine sent (the
+// sentinel was accepted), so every send to the client channel has completed; the ping makes sure the collector has
+// stored what it received.
+func (c *ntfnCollector) drain() []*wallet.TransactionNotifications {
+	ack := make(chan struct{})
+	select {
+	case c.ping <- ack:
+		<-ack
+	case <-c.quit:
+	}
+	c.mu.Lock()
+	defer c.mu.Unlock()
+	out := c.got
+	c.got = nil
+	return out
+}
+
+func (c *ntfnCollector) stop() {
+	select {
+	case <-c.quit:
+	default:
+		close(c.quit)
+	}
+}
+
+// register attaches a fresh client to the wallet object that is about to be started and resets the oracle's view: a
+// client that (re)connects learns the chain from the backend, not from notifications.
+func (r *syncRunner) register() {
+	if r.col != nil {
+		r.col.stop()
+	}
+	r.col = newCollector(r.env.w)
+	r.cchain, r.sentDisc, r.gotDet = nil, nil, nil
+}
+
+func (r *syncRunner) resetClientChain() {
+	r.cchain = nil
+	for h := int32(0); ; h++ {
+		b := r.env.fc.at(h)
+		if b == nil {
+			break
+		}
+		r.cchain = append(r.cchain, b.hash)
+	}
+}
+
+// disconnectNotifies reports whether disconnectBlock will reach notifyDetachedBlock for b (it returns early with an
+// error when b's height is at or below the tip but no hash is remembered for it).
+func (r *syncRunner) disconnectNotifies(b *fblock) bool {
+	w := r.env.w
+	if !w.ChainSynced() {
+		return false
+	}
+	if b.height > w.Manager.SyncedTo().Height {
+		return true
+	}
+	ok := false
+	_ = walletdb.View(w.Database(), func(tx walletdb.ReadTx) error {
+		_, err := w.Manager.BlockHash(tx.ReadBucket(namespaces.addr), b.height)
+		ok = err == nil
+		return nil
+	})
+	return ok
+}
+
+// ntfns drains the client, renders the delivered notifications and runs the notification oracle:
+//   - the DetachedBlocks delivered so far are, in order, the hashes of the disconnected blocks the engine sent
+//     (key ntfn.detached-mismatch); when a notification with attached blocks is delivered none is outstanding
+//     (ntfn.detached-missing);
+//   - every attached block is a block of the backend with that height, its transactions are transactions of that
+//     block (ntfn.attached-unknown-block, ntfn.tx-not-in-block);
+//   - a client that follows the notifications (an attached block at height h replaces what the client has from h up,
+//     a block it already has at that height changes nothing; then every detached block that is the client's tip is
+//     removed) never sees a gap (ntfn.attached-gap) and, whenever a notification with attached blocks was delivered
+//     during the op, ends the op with exactly the backend's best chain (ntfn.replay-mismatch).
+func (r *syncRunner) ntfns() (string, string) {
+	if r.col == nil {
+		return "", ""
+	}
+	got := r.col.drain()
+	var out, v []string
+	flushed := false
+	add := func(s string) {
+		if len(v) < 3 {
+			v = append(v, s)
+		}
+	}
+	for _, n := range got {
+		var as, ds, us []string
+		for _, b := range n.AttachedBlocks {
+			var ts []string
+			fb := r.env.fc.blockByHash(*b.Hash)
+			for _, t := range b.Transactions {
+				id, ok := r.txID[*t.Hash]
+				if !ok {
+					id = -1
+				}
+				ts = append(ts, strconv.Itoa(id))
+				if fb != nil {
+					in := false
+					for _, spec := range r.blkTxs[fb.id] {
+						if spec.id == id {
+							in = true
+						}
+					}
+					if !in {
+						add(fmt.Sprintf("C15 key=ntfn.tx-not-in-block: transaction %d notified in attached block %d which does not contain it", id, fb.id))
+					}
+				}
+			}
+			as = append(as, fmt.Sprintf("%d:%s[%s]", b.Height, r.env.fc.idOf(*b.Hash), strings.Join(ts, "+")))
+			flushed = true
+			if fb == nil || fb.height != b.Height {
+				add(fmt.Sprintf("C15 key=ntfn.attached-unknown-block: attached block %s at height %d is not a block of the backend at that height", r.env.fc.idOf(*b.Hash), b.Height))
+				continue
+			}
+			h := int(b.Height)
+			switch {
+			case h < len(r.cchain) && r.cchain[h] == *b.Hash:
+			case h > len(r.cchain):
+				add(fmt.Sprintf("C15 key=ntfn.attached-gap: attached block %d at height %d but the notifications so far describe a chain of height %d", fb.id, h, len(r.cchain)-1))
+			default:
+				r.cchain = append(r.cchain[:h:h], *b.Hash)
+			}
+		}
+		for _, d := range n.DetachedBlocks {
+			ds = append(ds, r.env.fc.idOf(*d))
+			r.gotDet = append(r.gotDet, *d)
+			// a detached block that is (still) the client's tip after the attached blocks were applied: the chain
+			// got shorter (pure rollback); any other detached block was replaced by an attached one or never seen
+			if k := len(r.cchain); k > 1 && r.cchain[k-1] == *d {
+				r.cchain = r.cchain[:k-1]
+			}
+		}
+		for _, t := range n.UnminedTransactions {
+			id, ok := r.txID[*t.Hash]
+			if !ok {
+				id = -1
+			}
+			us = append(us, strconv.Itoa(id))
+		}
+		out = append(out, "A="+strings.Join(as, "/")+",D="+strings.Join(ds, "/")+",U="+strings.Join(us, "/"))
+	}
+	if r.malformed {
+		return strings.Join(out, "|"), ""
+	}
+	for i, d := range r.gotDet {
+		if i >= len(r.sentDisc) || r.sentDisc[i] != d {
+			exp := "none"
+			if i < len(r.sentDisc) {
+				exp = r.env.fc.idOf(r.sentDisc[i])
+			}
+			add(fmt.Sprintf("C15 key=ntfn.detached-mismatch: detached block #%d notified is %s, the block disconnected was %s", i, r.env.fc.idOf(d), exp))
+			break
+		}
+	}
+	if flushed && len(r.gotDet) < len(r.sentDisc) {
+		add(fmt.Sprintf("C15 key=ntfn.detached-missing: a notification with attached blocks was delivered but only %d of %d disconnected blocks were notified as detached", len(r.gotDet), len(r.sentDisc)))
+	}
+	if flushed {
+		okc := len(r.cchain) == int(r.env.fc.tip().height)+1
+		for h := 0; okc && h < len(r.cchain); h++ {
+			if b := r.env.fc.at(int32(h)); b == nil || b.hash != r.cchain[h] {
+				okc = false
+			}
+		}
+		if !okc {
+			tip := "-"
+			if len(r.cchain) > 0 {
+				tip = r.env.fc.idOf(r.cchain[len(r.cchain)-1])
+			}
+			add(fmt.Sprintf("C15 key=ntfn.replay-mismatch: following the attached blocks gives a chain of height %d with tip %s, backend best chain has height %d tip %d", len(r.cchain)-1, tip, r.env.fc.tip().height, r.env.fc.tip().id))
+		}
+	}
+	return strings.Join(out, "|"), strings.Join(v, "; ")
+}
+
+
 func (r *syncRunner) Close() {
+	if r.col != nil {
+		r.col.stop()
+		r.col = nil
+	}
 	if r.env != nil {
 		r.env.close()
 		r.env = nil
@@ -102,6 +332,16 @@ func parseTxSpecs(s string) []txSpec {
 }
 
 func (r *syncRunner) Exec(op string) (string, string) {
+	reply, v := r.exec1(op)
+	if strings.HasPrefix(reply, "run ") {
+		ns, nv := r.ntfns()
+		reply += " ntf=" + ns
+		v = joinV(v, nv)
+	}
+	return reply, v
+}
+
+func (r *syncRunner) exec1(op string) (string, string) {
 	kind, kv := core.KV(op)
 	if kind != "init" && r.env == nil {
 		return "bad-op", ""
@@ -119,6 +359,7 @@ func (r *syncRunner) Exec(op string) (string, string) {
 		r.env = env
 		r.txs, r.txID, r.blkTxs = map[int]*wire.MsgTx{}, map[chainhash.Hash]int{}, map[int][]txSpec{}
 		r.top, r.maxTip, r.malformed, r.zeroAt, r.broken, r.brokenReported, r.recoveryTaint = 0, 0, false, map[int32]bool{}, false, false, false
+		r.seen = map[int]txSpec{}
 		r.addrs = nil
 		r.recW = uint32(atoi(kv["recw"]))
 		if atoi(kv["W"]) != waddrmgr.MaxReorgDepth {
@@ -128,6 +369,8 @@ func (r *syncRunner) Exec(op string) (string, string) {
 		if err := env.create(seedFor(1), params.GenesisBlock.Header.Timestamp.Add(-240*time.Hour), r.recW); err != nil {
 			return "err create " + err.Error(), ""
 		}
+		r.register()
+		r.resetClientChain()
 		if !env.startSync(10 * time.Second) {
 			return "sync-stuck", ""
 		}
@@ -192,6 +435,7 @@ func (r *syncRunner) Exec(op string) (string, string) {
 		}
 		if r.env.running {
 			for _, b := range dropped {
+				r.sentDisc = append(r.sentDisc, b.hash)
 				if !r.env.fc.deliver(chain.BlockDisconnected(b.meta())) {
 					return "deliver-timeout", ""
 				}
@@ -216,6 +460,9 @@ func (r *syncRunner) Exec(op string) (string, string) {
 			return "bad-op", "" // not stale
 		}
 		before := r.state()
+		if r.disconnectNotifies(b) {
+			r.sentDisc = append(r.sentDisc, b.hash)
+		}
 		if !r.env.fc.deliver(chain.BlockDisconnected(b.meta())) {
 			return "deliver-timeout", ""
 		}
@@ -253,6 +500,7 @@ func (r *syncRunner) Exec(op string) (string, string) {
 			return "bad-op", ""
 		}
 		tx := r.mkTx(txSpec{atoi(kv["tx"]), false})
+		r.seen[atoi(kv["tx"])] = txSpec{atoi(kv["tx"]), false}
 		rec, _ := wtxmgr.NewTxRecordFromMsgTx(tx, time.Unix(1500000000, 0))
 		if !r.env.fc.deliver(chain.RelevantTx{TxRecord: rec}) {
 			return "deliver-timeout", ""
@@ -278,6 +526,10 @@ func (r *syncRunner) Exec(op string) (string, string) {
 		}
 		return r.state(), ""
 	case "stop":
+		if r.col != nil {
+			r.col.stop()
+			r.col = nil
+		}
 		r.env.stop()
 		return r.state(), ""
 	case "start":
@@ -288,6 +540,8 @@ func (r *syncRunner) Exec(op string) (string, string) {
 		if err := r.env.reopen(r.recW); err != nil {
 			return "err open " + err.Error(), ""
 		}
+		r.register()
+		r.resetClientChain()
 		if !r.env.startSync(1500 * time.Millisecond) {
 			r.env.stop()
 			v := ""
@@ -319,6 +573,8 @@ func (r *syncRunner) Exec(op string) (string, string) {
 		if err := r.env.reopen(0); err != nil {
 			return "err open " + err.Error(), ""
 		}
+		r.register()
+		r.resetClientChain()
 		mode := kv["mode"]
 		r.env.fc.mu.Lock()
 		r.env.fc.beforeFinish = func(c *conn) {
@@ -566,7 +822,89 @@ func (r *syncRunner) oracle(ctx string) string {
 	if v != "" && ctx == "startup-recovery" {
 		r.recoveryTaint = true
 	}
-	return v
+	return joinV(v, r.oracleC02(ctx))
+}
+
+// oracleC02 is C02's wallet-level clause on the real wallet, against the ground truth of the fake backend (no model):
+// what the wallet reports per transaction (Store.TxDetails, Store.RangeTransactions) must equal
+//   - every wallet transaction of a best-chain block: confirmed in exactly that block
+//     (wallet.tx-missing, wallet.tx-on-best-chain-reported-unconfirmed, wallet.tx-confirmed-in-wrong-block);
+//   - every delivered transaction that is in no best-chain block (its block was disconnected, or it never was mined):
+//     unconfirmed if it is not a coinbase, gone if it is (wallet.stale-tx-still-confirmed, wallet.stale-tx-lost,
+//     wallet.stale-coinbase-kept).
+// The engine's transactions spend external outputs only, so there are no dependants and no conflicts.  Skipped where
+// the ground truth is not unambiguous: malformed streams, an inconsistent store, a not yet chain-synced wallet, cases
+// tainted by a start-up with a recovery window that left stale state behind.
+func (r *syncRunner) oracleC02(ctx string) string {
+	if r.malformed || !r.env.running || r.broken || r.recoveryTaint || !r.env.w.ChainSynced() {
+		return ""
+	}
+	w := r.env.w
+	onBest := map[int]*fblock{}
+	for h := int32(1); ; h++ {
+		b := r.env.fc.at(h)
+		if b == nil {
+			break
+		}
+		for _, spec := range r.blkTxs[b.id] {
+			onBest[spec.id] = b
+			r.seen[spec.id] = spec
+		}
+	}
+	ids := make([]int, 0, len(r.seen))
+	for id := range r.seen {
+		ids = append(ids, id)
+	}
+	sort.Ints(ids)
+	var v []string
+	add := func(key, f string, a ...interface{}) {
+		if len(v) < 3 {
+			v = append(v, "C02 key=wallet."+key+"."+ctx+": "+fmt.Sprintf(f, a...))
+		}
+	}
+	_ = walletdb.View(w.Database(), func(tx walletdb.ReadTx) error {
+		ns := tx.ReadBucket(namespaces.tx)
+		for _, id := range ids {
+			spec := r.seen[id]
+			mtx := r.txs[id]
+			if mtx == nil {
+				continue
+			}
+			h := mtx.TxHash()
+			d, err := w.TxStore.TxDetails(ns, &h)
+			if err != nil {
+				add("tx-details-error", "TxDetails(tx %d): %v", id, err)
+				continue
+			}
+			b := onBest[id]
+			switch {
+			case b != nil && d == nil:
+				add("tx-missing", "tx %d is in best-chain block %d (height %d) and was delivered, but the wallet does not know it", id, b.id, b.height)
+			case b != nil && d.Block.Height == -1:
+				add("tx-on-best-chain-reported-unconfirmed", "tx %d is in best-chain block %d (height %d) but the wallet reports it unconfirmed", id, b.id, b.height)
+			case b != nil && (d.Block.Height != b.height || d.Block.Hash != b.hash):
+				add("tx-confirmed-in-wrong-block", "tx %d is in best-chain block %d (height %d) but the wallet reports it confirmed at height %d in block %s", id, b.id, b.height, d.Block.Height, r.env.fc.idOf(d.Block.Hash))
+			case b == nil && d != nil && d.Block.Height != -1:
+				add("stale-tx-still-confirmed", "tx %d is in no best-chain block but the wallet reports it confirmed at height %d in block %s", id, d.Block.Height, r.env.fc.idOf(d.Block.Hash))
+			case b == nil && !spec.coinbase && d == nil:
+				add("stale-tx-lost", "tx %d was delivered and is in no best-chain block: it should be unconfirmed, the wallet does not know it any more", id)
+			case b == nil && spec.coinbase && d != nil:
+				add("stale-coinbase-kept", "coinbase tx %d of a disconnected block is still in the wallet (unconfirmed)", id)
+			}
+		}
+		return nil
+	})
+	// nothing else is reported confirmed
+	_, _, reported, _ := r.records()
+	for _, m := range reported {
+		b := onBest[m.tx]
+		if b == nil {
+			add("stale-tx-still-confirmed", "tx %d is reported confirmed at height %d in block %s but is in no best-chain block", m.tx, m.height, r.env.fc.idOf(m.hash))
+		} else if b.height != m.height || b.hash != m.hash {
+			add("tx-confirmed-in-wrong-block", "tx %d is reported confirmed at height %d in block %s, the best chain has it in block %d (height %d)", m.tx, m.height, r.env.fc.idOf(m.hash), b.id, b.height)
+		}
+	}
+	return strings.Join(v, "; ")
 }
 
 func (r *syncRunner) oracle1(ctx string) string {
@@ -876,7 +1214,7 @@ func (syncEngine) Generate(rng *rand.Rand, tier string) []core.Case {
 	gt := params.GenesisBlock.Header.Timestamp.Unix()
 	n, steps := 36, 45
 	if tier == "thorough" {
-		n, steps = 900, 60
+		n, steps = 680, 60 // thorough tier ≈ 30 min over 4 seeds (each op now also drains the NtfnServer and runs the C02 wallet-level oracle)
 	}
 	var cases []core.Case
 	mk := func(recw int) *syncGen {
@@ -916,6 +1254,76 @@ func (syncEngine) Generate(rng *rand.Rand, tier string) []core.Case {
 			g.step(true, recw)
 		}
 		fin(g, "valid-evolution", "recovery-window")
+	}
+	// start-up path, densely: every few steps the wallet is stopped, the backend extends or reorganises (wallet
+	// transactions in the stale blocks, some mined again on the new branch), and the wallet restarts — alternately
+	// with and without a recovery window
+	for i := 0; i < n/4 && i < 60; i++ {
+		recw := 0
+		if i%2 == 1 {
+			recw = 1 + rng.Intn(5)
+		}
+		g := mk(recw)
+		for j := 0; j < steps/2; j++ {
+			if j%4 == 3 {
+				g.offline(recw)
+			} else {
+				g.step(false, recw)
+			}
+		}
+		fin(g, "valid-evolution", "dense-restarts")
+	}
+	// recovery in more than one batch (recoveryBatchSize = 2000 is a constant of the wallet): the backend grows by
+	// 2100 blocks while the wallet is stopped, wallet transactions on both sides of the batch boundary
+	{
+		g := mk(2)
+		for j := 0; j < 3; j++ {
+			g.extend()
+		}
+		g.emit("stop")
+		g.running = false
+		for j := 0; j < 2100; j++ {
+			if j >= 1990 && j < 2005 {
+				g.extend()
+				continue
+			}
+			id := g.nextBlk
+			g.nextBlk++
+			g.blocks[id] = &gblock{id: id, parent: g.tip(), height: len(g.best)}
+			g.emit("blk id=%d parent=%d t=%d txs=", id, g.tip(), gt+int64(len(g.best))*600)
+			g.best = append(g.best, id)
+			g.emit("ext id=%d mode=a", id)
+		}
+		g.emit("start recw=2")
+		g.running = true
+		g.emit("hashes from=1980 to=2110")
+		for j := 0; j < 8; j++ {
+			g.step(true, 2)
+		}
+		fin(g, "valid-evolution", "recovery-two-batches")
+	}
+	// notification coalescing: pure rollbacks (empty branch), repeated connects, equal-length reorgs and the
+	// BlockConnected-before-RelevantTx order, which leave entries pending in the NotificationServer
+	for i := 0; i < n/3 && i < 60; i++ {
+		g := mk(0)
+		for j := 0; j < steps; j++ {
+			switch x := rng.Intn(12); {
+			case x < 3:
+				id := g.newBlock(g.tip(), nil)
+				g.best = append(g.best, id)
+				g.emit("ext id=%d mode=%s", id, []string{"a", "a", "b", "f"}[rng.Intn(4)])
+			case x < 5:
+				g.reorg(3, func(d int) int { return 0 })
+				g.tags["pure-rollback"] = true
+			case x < 7:
+				g.reorg(3, func(d int) int { return d })
+			case x < 9:
+				g.emit("dupc")
+			default:
+				g.step(true, 0)
+			}
+		}
+		fin(g, "valid-evolution", "ntfn-coalescing")
 	}
 	// malformed streams: differential only
 	for i := 0; i < n/4+1; i++ {
